@@ -74,6 +74,7 @@ type Pred struct {
 }
 
 type FrameSpec struct {
+	Within  []string // package paths (relative to the repo) the scan is limited to
 	Kind    string // writers | readers | callers
 	Sel     string // Type.field or function target
 	Allowed []string
@@ -422,6 +423,21 @@ func parseFrame(rest string) *FrameSpec {
 		}
 	}
 	after := strings.TrimSpace(tail[rb+1:])
+	if strings.HasPrefix(after, "within") {
+		rest := strings.TrimSpace(after[len("within"):])
+		w := rest
+		if i := strings.Index(rest, " property"); i >= 0 {
+			w = rest[:i]
+			after = strings.TrimSpace(rest[i:])
+		} else {
+			after = ""
+		}
+		for _, p := range strings.Split(w, ",") {
+			if p = strings.TrimSpace(p); p != "" {
+				fs.Within = append(fs.Within, p)
+			}
+		}
+	}
 	if strings.HasPrefix(after, "property") {
 		fs.Props = strings.Fields(after[len("property"):])
 	}
